@@ -9,6 +9,7 @@ import TantivyModel.Proofs.Columnar.StackMissing
 import TantivyModel.Proofs.Columnar.Writer
 import TantivyModel.Proofs.Columnar.OptRankSelect
 import TantivyModel.Proofs.Columnar.DictColumn
+import TantivyModel.Proofs.Columnar.ColumnFile
 /-!
 # C08 — Fast fields return exactly the values that were indexed
 
@@ -365,6 +366,37 @@ than the writer -/
 theorem C08_column_index_roundtrip {V : Type} (rows : Column V) (card : Card) (hfit : card.fits rows) :
     read (encodeAs card rows).1 (encodeAs card rows).2 = rows :=
   read_encodeAs card rows hfit
+
+/-- the whole u64 column file on its bytes (`serialize_column_mappable_to_u64` / `open_column_u64`:
+cardinality code, optional index, multivalued start-offsets column and its u32 length, column
+values under any codec, trailing u32 index length): for every well-formed column index (what the
+writer and every merge hand over: rows-with-values strictly increasing below the row count, start
+offsets below 2^64) the file opens, and reading every document through the opened readers
+(`rank_if_exists` on the optional index bytes, start offsets decoded from their column, values
+decoded from theirs) equals reading through the abstract index. The index bytes must stay below
+4 GiB (the code stores their length as u32). -/
+theorem C08_column_file_open (startsCodec valCodec : Nat) (idx : Index) (vals : List Nat) (bytes : Bytes)
+    (hok : IndexOk idx) (hv : ∀ v ∈ vals, v < 2 ^ 64) (hlen : vals.length < 2 ^ 32)
+    (hibl : ∀ ib, indexEnc startsCodec idx = some ib → ib.length < 2 ^ 32)
+    (henc : columnFileEnc startsCodec valCodec idx vals = some bytes) :
+    ∃ f, openColumnFile bytes = some f ∧ f.read = read idx vals :=
+  columnFile_read startsCodec valCodec idx vals bytes hok hv hlen hibl henc
+
+/-- rows → column file → rows: for every cardinality that fits, any codecs, the file written for
+`rows` opens and every document reads back exactly its values in insertion order. -/
+theorem C08_column_file_roundtrip (startsCodec valCodec : Nat) (card : Card) (rows : Column Nat)
+    (hfit : card.fits rows) (hv : ∀ r ∈ rows, ∀ v ∈ r, v < 2 ^ 64) (hn : rows.length ≤ 65535 * 65536)
+    (hvals : rows.flatten.length < 2 ^ 32) (bytes : Bytes)
+    (hibl : ∀ ib, indexEnc startsCodec (encodeAs card rows).1 = some ib → ib.length < 2 ^ 32)
+    (henc : columnFileEnc startsCodec valCodec (encodeAs card rows).1 (encodeAs card rows).2 = some bytes) :
+    ∃ f, openColumnFile bytes = some f ∧ f.read = rows :=
+  columnFile_roundtrip startsCodec valCodec card rows hfit hv hn hvals bytes hibl henc
+
+example : ((columnFileEnc 0 2 (encodeAs .multivalued [[5], [], [7, 9]]).1
+      (encodeAs .multivalued [[5], [], [7, 9]]).2).bind openColumnFile).map ColFile.read
+    = some [[5], [], [7, 9]] := by decide
+example : ((columnFileEnc 0 0 (encodeAs .optional [[], [3]]).1 (encodeAs .optional [[], [3]]).2).bind
+      openColumnFile).map ColFile.read = some [[], [3]] := by decide
 
 /-- numeric coercion (`CompatibleNumericalTypes` + `Coerce`): when the detected column type is an
 integer type, every recorded value is an integer, is coerced without reaching `unreachable!()`, and
